@@ -223,6 +223,7 @@ func (p *peer) Dial(addr string, protoFunc ...ProtoFunc) (Session, *Status) {
 	// create redial func
 	if p.dialer.RedialTimes() != 0 {
 		sess.redialForClientLocked = func() bool {
+			vp("redial.begin", sess, 0, 0)
 			oldID := sess.ID()
 			oldIP := sess.LocalAddr().String()
 			oldConn := sess.getConn()
@@ -244,6 +245,7 @@ func (p *peer) Dial(addr string, protoFunc ...ProtoFunc) (Session, *Status) {
 			})
 
 			if err != nil {
+				vp("redial.failed", sess, 0, 0)
 				sess.closeLocked()
 				sess.tryChangeStatus(statusRedialFailed, statusRedialing)
 				Errorf("redial fail (network:%s, addr:%s, id:%s): %s", p.network, addr, oldID, err.Error())
@@ -254,8 +256,11 @@ func (p *peer) Dial(addr string, protoFunc ...ProtoFunc) (Session, *Status) {
 				oldConn.Close()
 			}
 			sess.changeStatus(statusOk)
+			vp("redial.ok", sess, 0, 0)
 			AnywayGo(sess.startReadAndHandle)
+			vp("redial.reader", sess, 0, 0)
 			p.sessHub.set(sess)
+			vp("redial.indexed", sess, 0, 0)
 			Infof("redial ok (network:%s, addr:%s, id:%s)", p.network, addr, sess.ID())
 			return true
 		}
@@ -263,8 +268,11 @@ func (p *peer) Dial(addr string, protoFunc ...ProtoFunc) (Session, *Status) {
 
 	Infof("dial ok (network:%s, addr:%s, id:%s)", p.network, addr, sess.ID())
 	sess.changeStatus(statusOk)
+	vp("dial.ok", sess, 0, 0)
 	AnywayGo(sess.startReadAndHandle)
+	vp("dial.reader", sess, 0, 0)
 	p.sessHub.set(sess)
+	vp("dial.indexed", sess, 0, 0)
 	return sess, nil
 }
 
@@ -293,8 +301,11 @@ func (p *peer) ServeConn(conn net.Conn, protoFunc ...ProtoFunc) (Session, *Statu
 	}
 	Infof("serve ok (network:%s, addr:%s, id:%s)", network, sess.RemoteAddr().String(), sess.ID())
 	sess.changeStatus(statusOk)
+	vp("accept.ok", sess, 0, 0)
 	AnywayGo(sess.startReadAndHandle)
+	vp("accept.reader", sess, 0, 0)
 	p.sessHub.set(sess)
+	vp("accept.indexed", sess, 0, 0)
 	return sess, nil
 }
 
@@ -370,7 +381,9 @@ func (p *peer) serveListener(lis net.Listener, protoFunc ...ProtoFunc) error {
 			}
 			Infof("accept ok (network:%s, addr:%s, id:%s)", network, sess.RemoteAddr().String(), sess.ID())
 			p.sessHub.set(sess)
+			vp("listen.indexed", sess, 0, 0)
 			sess.changeStatus(statusOk)
+			vp("listen.ok", sess, 0, 0)
 			sess.startReadAndHandle()
 		})
 	}
